@@ -71,12 +71,16 @@ func certRun(args []string) error {
 	certs := []*x509.Certificate{newKeyCert("p256", []string{"a.example"}, 0).certs[0], newKeyCert("p384", []string{"b.example"}, 120).certs[0],
 		newKeyCert("p256", []string{"c.example"}, 600).certs[0]}
 	id := 0
+	var runChain func(ch certurl.CertChain, tag string)
 	runPattern := func(pat []struct{ Ocsp, Sct int }, tag string) {
-		id++
 		ch := certurl.CertChain{}
 		for i, p := range pat {
 			ch = append(ch, &certurl.AugmentedCertificate{Cert: certs[i%3], OCSPResponse: blob(r, p.Ocsp), SCTList: blob(r, p.Sct)})
 		}
+		runChain(ch, tag)
+	}
+	runChain = func(ch certurl.CertChain, tag string) {
+		id++
 		var buf bytes.Buffer
 		err := ch.Write(&buf)
 		out := []int{}
@@ -121,6 +125,20 @@ func certRun(args []string) error {
 		runPattern(longer, "long")
 		longer[1050].Ocsp = 3
 		runPattern(longer, "long")
+	}
+	// aliased elements: the SAME element object at several positions of the chain (a self-signed certificate listed as its
+	// own issuer, a leaf repeated at the end), elements sharing one certificate or one byte slice; the rule is positional
+	{
+		mk := func(c int, ocsp, sct int) *certurl.AugmentedCertificate {
+			return &certurl.AugmentedCertificate{Cert: certs[c], OCSPResponse: blob(r, ocsp), SCTList: blob(r, sct)}
+		}
+		a, a0, b, c := mk(0, 4, -1), mk(0, 0, 3), mk(1, -1, -1), mk(2, -1, 2)
+		n := mk(0, -1, -1)
+		for _, ch := range []certurl.CertChain{{a, a}, {a, b, a}, {a, b, b}, {a, b, c, b}, {a, b, c, a}, {a0, a0}, {a0, b, a0}, {n, n}, {n, a}, {b, a, b}, {a, a, a},
+			{a, b, &certurl.AugmentedCertificate{Cert: a.Cert, OCSPResponse: a.OCSPResponse, SCTList: a.SCTList}},
+			{a, &certurl.AugmentedCertificate{Cert: a.Cert}, &certurl.AugmentedCertificate{Cert: a.Cert, SCTList: c.SCTList}}} {
+			runChain(ch, "alias")
+		}
 	}
 	sizes := []int{0, 1, 23, 24, 255, 256, 511, 512, 513, 4095, 4096, 4097}
 	if thorough {
